@@ -175,6 +175,17 @@ func c07Input(c *core.Ctx, i int64, src []byte, class string, r *rand.Rand) {
 			}
 		}
 	}
+	// many zero-byte reads over the whole input, never two in a row
+	if n >= 4 {
+		var st []mon.Step
+		piece := max(1, n/160)
+		for k := 0; k < 170; k++ {
+			st = append(st, mon.Step{N: 0}, mon.Step{N: piece})
+		}
+		if !c07Try(c, src, whole, st, "many_zero_byte_reads") {
+			return
+		}
+	}
 	// data together with EOF on the last read
 	if n >= 2 {
 		cut := 1 + r.Intn(n-1)
